@@ -29,6 +29,9 @@ class ViabTheta(Theta):
 
 def check_eval(ctx, e, rng, tmp):
     E, lab = e["E"], list(e["lab"])
+    # chain labels are identities: any integers will do (file indexes, seeds ...) - the grouping is what the definitions use
+    f = [lambda k: k, lambda k: k + 126, lambda k: 300 * k + 7, lambda k: 2 ** 31 - 1 - k][int(rng.integers(4))]
+    lab = [int(f(k)) for k in lab]
     T = len(lab)
     P = rng.normal(size=(E, T)) * rng.choice([1e-3, 1.0, 30.0])
     O = rng.normal(size=E)
